@@ -1,6 +1,7 @@
 (* C07 — receive buffering is bounded by the configured limit (separator-framed readers, copying path fully;
    buffer-filling path: the allocation is the bound by construction, acceptance proved in the safe band). *)
-From Coq Require Import List Arith ZArith.
+From Coq Require Import List Arith ZArith NArith Lia.
+From EN Require Gen.ParamsC07.
 From EN Require Import Lib.Bytes Frame.Framer Frame.ReadUntil Frame.BufReadUntil Frame.JsonRaw Frame.Generic
   Stream.Consumer Stream.SpecDecode Proofs.ReadUntil_proofs Proofs.C07_proofs Proofs.C06_progress Proofs.C07_extra.
 Import ListNotations.
@@ -180,6 +181,25 @@ Theorem safe_never_rejected_filebased :
                      nres_of (wrap_generic (fb_framer limit load expected)) r <> RErr ELimit.
 Proof. intros P limit load expected H1 chunks fuel r. exact (fb_safe_never_rejected_l limit load expected H1 chunks fuel r). Qed.
 Print Assumptions safe_never_rejected_filebased.
+
+(* The receive buffers of the model have the sizes the source allocates: the allocation functions below are REGENERATED
+   from the bodies of create_deserializer_buffer on every run (Gen/ParamsC07.v).  In particular the separator-framed
+   serializers allocate exactly [limit] bytes whatever the size hint (so the buffer-filling theorems above, stated for a
+   buffer of [limit] bytes, speak about the buffer the code uses). *)
+Theorem receive_buffer_sizes_match_source :
+  forall (P : Type) (sep : bytes) (limit size hint : nat) (ke : bool) (dec : decoder P),
+    N.of_nat (balloc (bru_framer sep limit ke dec) hint) = Gen.ParamsC07.autosep_alloc (N.of_nat hint) (N.of_nat limit)
+    /\ N.of_nat (balloc (bru_framer sep limit ke dec) hint) = Gen.ParamsC07.line_alloc (N.of_nat hint) (N.of_nat limit)
+    /\ N.of_nat (balloc (bfx_framer size dec) hint) = Gen.ParamsC07.fixed_alloc (N.of_nat hint) (N.of_nat size)
+    /\ N.of_nat (fb_alloc limit hint) = Gen.ParamsC07.filebased_alloc (N.of_nat hint) (N.of_nat limit)
+    /\ N.of_nat (cz_alloc hint) = Gen.ParamsC07.compressor_alloc (N.of_nat hint) (N.of_nat limit).
+Proof.
+  intros P sep limit size hint ke dec.
+  unfold Gen.ParamsC07.autosep_alloc, Gen.ParamsC07.line_alloc, Gen.ParamsC07.fixed_alloc,
+         Gen.ParamsC07.filebased_alloc, Gen.ParamsC07.compressor_alloc, fb_alloc, cz_alloc.
+  cbn [balloc bru_framer bfx_framer]. repeat split; lia.
+Qed.
+Print Assumptions receive_buffer_sizes_match_source.
 
 (* non-vacuity / tightness witnesses *)
 Example overrun_witness :
